@@ -51,12 +51,12 @@ template <typename C> static std::string text_of(C const& c)
 
 // integrand shapes
 // s_gap (not part of the shape loops): ordinary, except that the second iteration of the run yields zeros only
-enum shape { s_ordinary = 0, s_zero, s_const, s_zero_mean, s_nonfinite, s_negative, s_count, s_gap = s_count, s_gap0, s_cancel0 };
+enum shape { s_ordinary = 0, s_zero, s_const, s_zero_mean, s_nonfinite, s_negative, s_count, s_gap = s_count, s_gap0, s_cancel0, s_const01 };
 static thread_local long alt_calls = 0; // evaluations of this rank in the current run
 static thread_local int iter_no = 0; // callbacks seen by this rank in the current run
 static char const* shape_name(int s)
 {
-    static char const* n[] = {"ordinary", "zero", "const", "zero_mean", "nonfinite", "negative", "gap", "gap0", "cancel0"};
+    static char const* n[] = {"ordinary", "zero", "const", "zero_mean", "nonfinite", "negative", "gap", "gap0", "cancel0", "const01"};
     return n[s];
 }
 template <typename T> static T shape_value(int s, T x)
@@ -69,6 +69,7 @@ template <typename T> static T shape_value(int s, T x)
     // the values of the first iteration cancel exactly (estimate 0 with a small error): a result like any other
     case s_cancel0: return iter_no == 0 ? (alt_calls++ % 2 ? T(-0.125) : T(0.125)) : x * x + T(0.1);
     case s_const: return T(2);
+    case s_const01: return T(0.1);   // a constant that is not a short binary fraction: the sample variance is zero up to rounding (of either sign)
     case s_zero_mean: return x < T(0.5) ? T(1) : T(-1);
     case s_nonfinite: return std::numeric_limits<T>::quiet_NaN();
     case s_negative: return -(x * x + T(0.1));
@@ -408,6 +409,14 @@ template <typename T> static void c12_family(rng& g, bool thorough)
     // error 0.12) after two and 0.12 +- 0.008 (0.065) after three iterations - a target of 0.085 is reached at the third callback
     c12_run<plain_k<T>, T>(g, s_cancel0, 0, 0, true, 0.085, 0, false, (int) g.below(4));
     c12_run<vegas_k<T>, T>(g, s_cancel0, 0, 0, true, 0.085, 0, false, 0);
+    // a constant integrand (variance 0 +- rounding): nothing is thrown, nothing stops early without a reached target
+    c12_run<plain_k<T>, T>(g, s_const01, 0, 0, true, 0.0, 0, false, (int) g.below(4));
+    c12_run<vegas_k<T>, T>(g, s_const01, 0, 0, true, 0.01, 0, false, 0);
+    c12_run<plain_k<T>, T>(g, s_const01, 0, 2, true, 0.01, 0, false, 2);
+    // a precise checkpoint (two results of 20000 calls: combined relative error about 0.0035) continued with short iterations (500 calls,
+    // relative error 0.03 each): a target of 0.005 is reached by the combination at the first callback, however imprecise the last result
+    c12_run<plain_k<T>, T>(g, s_ordinary, 0, 0, true, 0.005, 0, true, 0, 20000);
+    c12_run<vegas_k<T>, T>(g, s_ordinary, 0, 0, true, 0.005, 0, true, 2, 20000);
     // resumed from a checkpoint whose two results (200 calls each, relative error about 0.05 each) count: together with the first new
     // iteration the combination is at about 0.03 - a target of 0.04 is reached at the first callback after the resumption
     c12_run<plain_k<T>, T>(g, s_ordinary, 0, 0, true, 0.04, 0, true, (int) g.below(4), 200);
